@@ -71,10 +71,14 @@ def zx(t, w):
 
 
 def smul_overflows(a, b):
-    """signed multiplication overflow, in portable SMT-LIB terms (z3's bvsmul_noovfl is not
-    understood by cvc5): the double-width product differs from the sign-extended product"""
-    w = a.size()
-    return z3.SignExt(w, a) * z3.SignExt(w, b) != z3.SignExt(w, a * b)
+    """signed multiplication overflow.  z3's own predicates are used (cheap for z3); operands are
+    put into a canonical order so that both back ends and the reference build the *same* term
+    (commutativity of a 64-bit multiplier is out of reach of bit-blasting).  For cvc5 the
+    predicates are rewritten to double-width arithmetic when a query is dumped (smt.portable)"""
+    a, b = simp(a), simp(b)
+    if a.get_id() > b.get_id():
+        a, b = b, a
+    return z3.Not(z3.And(z3.BVMulNoOverflow(a, b, True), z3.BVMulNoUnderflow(a, b)))
 
 
 def rotl(a, c):
